@@ -791,13 +791,16 @@ Proof.
   apply rd8_len in E. apply rd16_len in E0. apply takeZ_len in E1. lia.
 Qed.
 
+Ltac nf_loop :=
+  match goal with
+  | |- (match str8_loop ?f ?d ?a with _ => _ end) <> Fuel =>
+    let E := fresh "E" in destruct (str8_loop f d a) eqn:E;
+    [|discriminate|exfalso; eapply str8_loop_nf; [|exact E]; lia]
+  | |- sni_loop _ _ _ _ <> Fuel => apply sni_loop_nf; lia
+  end.
+
 Lemma ch_handle_nf id len p rest m : ch_handle id len p rest m <> Fuel.
-Proof.
-  unfold ch_handle. repeat nf_step.
-  - apply sni_loop_nf. lia.
-  - destruct (str8_loop (length l) l (ch_alpn m)) eqn:E1; try discriminate.
-    exfalso. eapply str8_loop_nf; [|exact E1]. lia.
-Qed.
+Proof. unfold ch_handle. repeat (nf_step || nf_loop). Qed.
 
 Lemma ch_ext_loop_nf : forall f d m, (length d <= f)%nat -> ch_ext_loop f d m <> Fuel.
 Proof.
@@ -805,36 +808,40 @@ Proof.
   - destruct d; [discriminate|simpl in Hl; lia].
   - destruct d as [|x d]; [discriminate|]. rewrite ch_loop_step by discriminate.
     repeat nf_step.
-    destruct (ch_handle z z0 l l0 (ch_push z m)) as [m'| |] eqn:Eh; [|discriminate|exfalso; exact (ch_handle_nf _ _ _ _ _ Eh)].
+    match goal with |- (match ch_handle ?a ?b ?c ?e ?g with _ => _ end) <> Fuel =>
+      let Eh := fresh "Eh" in destruct (ch_handle a b c e g) as [m'| |] eqn:Eh;
+      [|discriminate|exfalso; exact (ch_handle_nf _ _ _ _ _ Eh)] end.
     apply IH. apply rd16_len in E, E0. apply takeZ_len in E1. lia.
 Qed.
 
+Ltac nf_tail :=
+  match goal with
+  | |- (match ?d with [] => _ | _ :: _ => _ end) <> Fuel =>
+    let Ed := fresh "Ed" in destruct d as [|? ?] eqn:Ed; [discriminate|rewrite <- Ed]
+  end.
+
 Theorem unmarshal_ch_total data : unmarshal_ch data <> Fuel.
 Proof.
-  unfold unmarshal_ch. repeat nf_step. cbv zeta.
-  destruct l8 as [|x t] eqn:Ed; [discriminate|]. rewrite <- Ed. repeat nf_step.
+  unfold unmarshal_ch. repeat nf_step. cbv zeta. try nf_tail. repeat nf_step.
   apply ch_ext_loop_nf. lia.
 Qed.
 
 Lemma sh_handle_nf id len p m : sh_handle id len p m <> Fuel.
-Proof.
-  unfold sh_handle. repeat nf_step.
-  destruct (str8_loop (length p) p (sh_protos m)) eqn:E1; try discriminate.
-  exfalso. eapply str8_loop_nf; [|exact E1]. lia.
-Qed.
+Proof. unfold sh_handle. repeat (nf_step || nf_loop). Qed.
 Lemma sh_ext_loop_nf : forall f d m, (length d <= f)%nat -> sh_ext_loop f d m <> Fuel.
 Proof.
   induction f as [|f IH]; intros d m Hl.
   - destruct d; [discriminate|simpl in Hl; lia].
   - destruct d as [|x d]; [discriminate|]. rewrite sh_loop_step by discriminate.
     repeat nf_step.
-    destruct (sh_handle z z0 l m) as [m'| |] eqn:Eh; [|discriminate|exfalso; exact (sh_handle_nf _ _ _ _ Eh)].
+    match goal with |- (match sh_handle ?a ?b ?c ?g with _ => _ end) <> Fuel =>
+      let Eh := fresh "Eh" in destruct (sh_handle a b c g) as [m'| |] eqn:Eh;
+      [|discriminate|exfalso; exact (sh_handle_nf _ _ _ _ Eh)] end.
     apply IH. apply rd16_len in E, E0. apply takeZ_len in E1. lia.
 Qed.
 Theorem unmarshal_sh_total data : unmarshal_sh data <> Fuel.
 Proof.
-  unfold unmarshal_sh. repeat nf_step. cbv zeta.
-  destruct l4 as [|x t] eqn:Ed; [discriminate|]. rewrite <- Ed. repeat nf_step.
+  unfold unmarshal_sh. repeat nf_step. cbv zeta. try nf_tail. repeat nf_step.
   apply sh_ext_loop_nf. lia.
 Qed.
 
@@ -844,8 +851,9 @@ Proof.
   - destruct d; [discriminate|simpl in Hl; lia].
   - destruct d as [|x d]; [discriminate|]. rewrite cert_loop_step by discriminate.
     repeat nf_step.
-    destruct (cert_loop f l0) eqn:Ec; try discriminate.
-    exfalso. eapply IH; [|exact Ec]. apply rd24_len in E. apply takeZ_len in E0. lia.
+    match goal with |- (match cert_loop ?a ?b with _ => _ end) <> Fuel =>
+      let Ec := fresh "Ec" in destruct (cert_loop a b) eqn:Ec; try discriminate;
+      exfalso; eapply IH; [|exact Ec]; apply rd24_len in E; apply takeZ_len in E0; lia end.
 Qed.
 Theorem unmarshal_cert_total data : unmarshal_cert data <> Fuel.
 Proof. unfold unmarshal_cert. repeat nf_step. apply cert_loop_nf. lia. Qed.
@@ -853,11 +861,145 @@ Proof. unfold unmarshal_cert. repeat nf_step. apply cert_loop_nf. lia. Qed.
 Lemma ss_cert_loop_nf : forall n d, ss_cert_loop n d <> Fuel.
 Proof.
   induction n as [|n IH]; intros d; [discriminate|]. cbn [ss_cert_loop]. repeat nf_step.
-  destruct (ss_cert_loop n l0) as [[? ?]| |] eqn:Ec; try discriminate. exfalso. exact (IH _ Ec).
+  match goal with |- (match ss_cert_loop ?a ?b with _ => _ end) <> Fuel =>
+    let Ec := fresh "Ec" in destruct (ss_cert_loop a b) as [[? ?]| |] eqn:Ec; try discriminate;
+    exfalso; exact (IH _ Ec) end.
 Qed.
 Theorem unmarshal_ss_total data : unmarshal_ss data <> Fuel.
 Proof.
   unfold unmarshal_ss. repeat nf_step.
-  destruct (ss_cert_loop (Z.to_nat z2) l2) as [[? ?]| |] eqn:Ec; [|discriminate|exfalso; exact (ss_cert_loop_nf _ _ Ec)].
+  match goal with |- (match ss_cert_loop ?a ?b with _ => _ end) <> Fuel =>
+    let Ec := fresh "Ec" in destruct (ss_cert_loop a b) as [[? ?]| |] eqn:Ec;
+    [|discriminate|exfalso; exact (ss_cert_loop_nf _ _ Ec)] end.
   repeat nf_step.
+Qed.
+
+Lemma cas_loop_nf : forall f d, (length d <= f)%nat -> cas_loop f d <> Fuel.
+Proof.
+  induction f as [|f IH]; intros d Hl.
+  - destruct d; [discriminate|simpl in Hl; lia].
+  - destruct d as [|x d]; [discriminate|]. cbn [cas_loop]. repeat nf_step.
+    match goal with |- (match cas_loop ?a ?b with _ => _ end) <> Fuel =>
+      let Ec := fresh "Ec" in destruct (cas_loop a b) eqn:Ec; try discriminate;
+      exfalso; eapply IH; [|exact Ec]; apply rd16_len in E; apply takeZ_len in E0; lia end.
+Qed.
+Theorem unmarshal_creq_total has data : unmarshal_creq has data <> Fuel.
+Proof.
+  unfold unmarshal_creq. repeat nf_step.
+  match goal with |- (match ?e with _ => _ end) <> Fuel =>
+    assert (Hn : e <> Fuel) by (destruct has; repeat nf_step);
+    destruct e as [[? ?]| |]; [|discriminate|contradiction] end.
+  repeat nf_step.
+  match goal with |- (match cas_loop ?a ?b with _ => _ end) <> Fuel =>
+    let Ec := fresh "Ec" in destruct (cas_loop a b) eqn:Ec;
+    [|discriminate|exfalso; eapply cas_loop_nf; [|exact Ec]; lia] end.
+  repeat nf_step.
+Qed.
+Theorem unmarshal_simple_total data (has : bool) :
+  unmarshal_ske data <> Fuel /\ unmarshal_cke data <> Fuel /\ unmarshal_fin data <> Fuel /\
+  unmarshal_cs data <> Fuel /\ unmarshal_np data <> Fuel /\ unmarshal_nst data <> Fuel /\
+  unmarshal_cv has data <> Fuel.
+Proof.
+  repeat split.
+  - unfold unmarshal_ske. repeat nf_step.
+  - unfold unmarshal_cke. repeat nf_step.
+  - unfold unmarshal_fin. repeat nf_step.
+  - unfold unmarshal_cs. repeat nf_step.
+  - unfold unmarshal_np. repeat nf_step.
+  - unfold unmarshal_nst. repeat nf_step.
+  - unfold unmarshal_cv. destruct has; repeat nf_step.
+Qed.
+
+Lemma pres_nocrash {A} (enc : A -> list val) (r : res A) : r <> Fuel -> not_crash (pres enc r) = true.
+Proof. destruct r; intros H; [reflexivity|reflexivity|contradiction]. Qed.
+
+(* parsing any byte string as any of the 12 message types yields true/false, never a fuel error *)
+Theorem parse_safe mt (flag : bool) d :
+  In mt [1; 2; 3; 4; 5; 7; 8; 9; 10; 11; 12; 13] -> not_crash (unmarshal_any mt flag d) = true.
+Proof.
+  pose proof (unmarshal_simple_total d flag) as [S1 [S2 [S3 [S4 [S5 [S6 S7]]]]]].
+  intros H. simpl in H.
+  repeat (destruct H as [H|H]; [subst mt; unfold unmarshal_any; cbn [Z.eqb Pos.eqb]; cbv iota|]);
+    try contradiction; try (apply pres_nocrash; assumption).
+  - pose proof (unmarshal_ch_total d) as T. destruct (unmarshal_ch d); [reflexivity|reflexivity|contradiction].
+  - apply pres_nocrash. apply unmarshal_sh_total.
+  - apply pres_nocrash. apply unmarshal_cert_total.
+  - apply pres_nocrash. apply unmarshal_creq_total.
+  - apply pres_nocrash. apply unmarshal_ss_total.
+Qed.
+
+Theorem prop_parse_of_model mt flag d :
+  In mt [1; 2; 3; 4; 5; 7; 8; 9; 10; 11; 12; 13] ->
+  prop_C45 (VL [VZ 2; VZ mt; VZ flag; VB d]) (run_C45 (VL [VZ 2; VZ mt; VZ flag; VB d])) = true.
+Proof. intros H. unfold prop_C45, run_C45. apply parse_safe. exact H. Qed.
+
+(* ---------- nextProto and certificateRequest round trips ---------- *)
+Lemma blen_repeat (x : Z) n : blen (repeat x n) = Z.of_nat n.
+Proof. unfold blen. rewrite repeat_length. reflexivity. Qed.
+
+Lemma roundtrip_np proto : blen proto < 256 -> unmarshal_np (marshal_np proto) = Ok proto.
+Proof.
+  intros H. unfold unmarshal_np, marshal_np. cbv zeta. pose proof (blen_nonneg proto).
+  set (pad := 32 - (blen proto + 2) mod 32).
+  assert (Hp : 0 < pad <= 32) by (unfold pad; pose proof (Z.mod_pos_bound (blen proto + 2) 32); lia).
+  rewrite blen_frame, hs_frame_eq.
+  rewrite ltb_ge_false by (pose proof (blen_nonneg (repeat 0 (Z.to_nat pad))); clearbody pad; blia).
+  rewrite takeZ4_frame. cbv beta iota. rewrite rd8_u8 by lia. cbv beta iota.
+  rewrite takeZ_app. cbv beta iota. rewrite rd8_u8 by lia. cbv beta iota.
+  rewrite blen_repeat, Z2Nat.id by lia. rewrite Z.eqb_refl. reflexivity.
+Qed.
+
+Lemma cas_loop_step f d :
+  d <> [] ->
+  cas_loop (S f) d = (do (cl, d1) <- rd16 d; do (c, d2) <- takeZ cl d1; do r <- cas_loop f d2; Ok (c :: r)).
+Proof. destruct d; [contradiction|reflexivity]. Qed.
+Lemma cas_loop_enc : forall cas fuel,
+  forallb (wf_str 0 65536) cas = true -> (length cas <= fuel)%nat ->
+  cas_loop fuel (flat_map enc_vec16 cas) = Ok cas.
+Proof.
+  induction cas as [|c r IH]; intros fuel Hwf Hf.
+  - destruct fuel; reflexivity.
+  - simpl in Hwf. apply andb_true_iff in Hwf. destruct Hwf as [Hc Hr]. apply wf_str_spec in Hc.
+    destruct Hc as [_ Hc]. destruct fuel as [|f]; [simpl in Hf; lia|].
+    rewrite flat_map_cons. unfold enc_vec16 at 1. rewrite <- !app_assoc.
+    rewrite cas_loop_step by apply u16_app_nonnil.
+    rewrite rd16_u16 by lia. cbv beta iota. rewrite takeZ_app. cbv beta iota.
+    rewrite IH by (auto; simpl in Hf; lia). reflexivity.
+Qed.
+
+Lemma roundtrip_creq (has : bool) types sigalgs cas :
+  1 <= blen types < 256 -> forallb wf_u16 sigalgs = true -> blen sigalgs < 32768 ->
+  (has = false -> sigalgs = []) ->
+  forallb (wf_str 0 65536) cas = true -> blen (flat_map enc_vec16 cas) < 65536 ->
+  unmarshal_creq has (marshal_creq has types sigalgs cas) = Ok (types, sigalgs, cas).
+Proof.
+  intros Ht Hsa Hsl Hhas Hcas Hcl. unfold unmarshal_creq, marshal_creq. cbv zeta.
+  set (casb := flat_map enc_vec16 cas) in *. pose proof (blen_nonneg casb). pose proof (blen_nonneg sigalgs).
+  rewrite blen_frame, hs_frame_eq.
+  destruct has.
+  - rewrite ltb_ge_false by blia. rewrite rd8_cons. cbv beta iota.
+    rewrite rd24_u24 by blia. cbv beta iota. eqb_true.
+    rewrite rd8_u8 by lia. cbv beta iota.
+    assert (E1 : (blen types =? 0) = false) by (apply Z.eqb_neq; lia).
+    rewrite E1. cbn [orb].
+    match goal with |- context [?a <=? ?b] =>
+      let H := fresh in assert (H : (a <=? b) = false) by (apply Z.leb_gt; blia); rewrite H; clear H end.
+    cbv iota. rewrite takeZ_app. cbv beta iota.
+    rewrite <- ?app_assoc. rewrite rd16_u16 by lia. cbv beta iota. rewrite odd_double. cbv iota.
+    rewrite (takeZ_app' (2 * blen sigalgs) (enc_u16s sigalgs)) by (rewrite blen_enc_u16s; reflexivity).
+    cbv beta iota. rewrite rd16_u16 by lia. cbv beta iota. rewrite takeZ_all. cbv beta iota.
+    subst casb. rewrite cas_loop_enc by (auto; apply flat_map_length_ge; intros x; unfold enc_vec16, u16; simpl; lia).
+    cbv beta iota. rewrite dec_enc_u16s by exact Hsa. reflexivity.
+  - rewrite (Hhas eq_refl) in *. rewrite app_nil_l.
+    rewrite ltb_ge_false by blia. rewrite rd8_cons. cbv beta iota.
+    rewrite rd24_u24 by blia. cbv beta iota. eqb_true.
+    rewrite rd8_u8 by lia. cbv beta iota.
+    assert (E1 : (blen types =? 0) = false) by (apply Z.eqb_neq; lia).
+    rewrite E1. cbn [orb].
+    match goal with |- context [?a <=? ?b] =>
+      let H := fresh in assert (H : (a <=? b) = false) by (apply Z.leb_gt; blia); rewrite H; clear H end.
+    cbv iota. rewrite takeZ_app. cbv beta iota.
+    rewrite rd16_u16 by lia. cbv beta iota. rewrite takeZ_all. cbv beta iota.
+    subst casb. rewrite cas_loop_enc by (auto; apply flat_map_length_ge; intros x; unfold enc_vec16, u16; simpl; lia).
+    reflexivity.
 Qed.
